@@ -89,12 +89,13 @@ fn boundary_sets(n: usize, all: bool) -> Vec<Vec<usize>> {
         }
     } else {
         out.push(vec![0]);
-        out.push((0..n).collect());
-        if n >= 2 {
+        let every: Vec<usize> = (0..n).collect();
+        if !out.contains(&every) {
+            out.push(every);
+        }
+        if n >= 2 && !out.contains(&vec![0, n / 2]) {
             out.push(vec![0, n / 2]);
         }
-        out.sort();
-        out.dedup();
     }
     out
 }
@@ -150,6 +151,21 @@ fn long_texts(thorough: bool) -> Vec<(String, Vec<u32>, u32)> {
         let text: Vec<u32> = de_bruijn(k, n).into_iter().map(|s| 10 * (s as u32 + 1)).collect();
         out.push((format!("deBruijn({k},{n})"), text, 15));
     }
+    // large alphabets: every symbol once (ascending, descending) and the ascending one twice;
+    // the sizes sit on the crate's switches between 8-, 16- and 32-bit symbol codes
+    let mut ks = vec![254usize, 255, 256, 257];
+    if thorough {
+        ks.extend([65534, 65535, 65536, 65537]);
+    }
+    for k in ks {
+        let asc: Vec<u32> = (0..k as u32).map(|i| 1000 + 3 * i).collect();
+        let desc: Vec<u32> = asc.iter().rev().copied().collect();
+        let mut twice = asc.clone();
+        twice.extend_from_slice(&asc);
+        out.push((format!("alphabet({k}) ascending"), asc, 1001));
+        out.push((format!("alphabet({k}) descending"), desc, 1001));
+        out.push((format!("alphabet({k}) ascending twice"), twice, 1001));
+    }
     out
 }
 
@@ -172,16 +188,38 @@ fn long_patterns(text: &[u32], absent: u32) -> Vec<Vec<u32>> {
     let mut symbols: Vec<u32> = text.to_vec();
     symbols.sort();
     symbols.dedup();
-    symbols.push(absent);
     let mut out = vec![];
-    for_each_pattern(
-        &PatPlan::All {
-            symbols,
-            max_len: 4,
-            extra: vec![],
-        },
-        |p| out.push(p.to_vec()),
-    );
+    if symbols.len() <= 4 {
+        symbols.push(absent);
+        for_each_pattern(
+            &PatPlan::All {
+                symbols,
+                max_len: 4,
+                extra: vec![],
+            },
+            |p| out.push(p.to_vec()),
+        );
+    } else {
+        // a large alphabet: single symbols (all, or the 300 smallest and largest), the absent
+        // symbol, and neighbouring pairs in both orders
+        let k = symbols.len();
+        let picked: Vec<u32> = if k <= 600 {
+            symbols.clone()
+        } else {
+            symbols[..300].iter().chain(symbols[k - 300..].iter()).copied().collect()
+        };
+        out.push(vec![]);
+        out.push(vec![absent]);
+        for s in picked.iter() {
+            out.push(vec![*s]);
+            out.push(vec![*s, absent]);
+        }
+        let step = (n / 600).max(1);
+        for i in (0..n - 1).step_by(step) {
+            out.push(vec![text[i], text[i + 1]]);
+            out.push(vec![text[i + 1], text[i]]);
+        }
+    }
     let starts = [0usize, 1, 2, 61, 62, 63, 64, 65, 66, 126, 127, 128, 129];
     for m in [5usize, 8, 62, 63, 64, 65, 66, n.saturating_sub(1), n] {
         if m == 0 || m > n {
@@ -242,20 +280,23 @@ fn run_specs(thorough: bool) -> Vec<(bool, Vec<usize>)> {
         }
     } else {
         for k in 1..=3 {
-            specs.extend(seqs(&sm, k));
+            specs.extend(seqs(&s, k));
         }
         for k in 1..=2 {
-            for q in seqs(&sml, k) {
-                if q.iter().any(|x| l.contains(x)) {
-                    specs.push(q);
-                }
-            }
+            specs.extend(seqs(&sm, k));
         }
         for a in [1usize, 63, 64] {
             for b in [1usize, 63, 64] {
-                for x in l.iter() {
+                for x in m.iter() {
                     specs.push(vec![a, *x, b]);
                 }
+            }
+        }
+        for x in l.iter() {
+            specs.push(vec![*x]);
+            for a in [1usize, 63, 64] {
+                specs.push(vec![a, *x]);
+                specs.push(vec![*x, a]);
             }
         }
     }
@@ -303,6 +344,7 @@ fn confirm(acc: &mut Acc, findings: Vec<Finding>) {
             acc.add(f);
         } else {
             acc.non_reproducible += 1;
+            acc.report.count(&format!("non_reproducible:{}", f.sig), 1);
         }
     }
 }
@@ -325,6 +367,9 @@ fn main() {
     let only = args.get("only").map(|s| s.to_string());
     let want = |k: &str| only.as_deref().map(|o| o == k).unwrap_or(true);
     let seed = args.u64("seed", 0);
+    if let Some(i) = args.get("impl") {
+        let _ = ONLY_IMPL.set(i.to_string());
+    }
 
     let base_symbols = [10u32, 20, 30, 40];
     let mut families: Vec<Family> = vec![];
@@ -370,7 +415,10 @@ fn main() {
             }
         }
     }
-    let budget = args.u64("level-budget", if thorough { 1_000_000_000 } else { 30_000_000 });
+    let budget = args.u64("level-budget", if thorough { 1_000_000_000 } else { 20_000_000 });
+    // over budget: on how many of the canonical boundary sets (one record, one symbol per record,
+    // split at n/2 -- in this order) every pattern is still asked
+    let canon_full = args.usize("canon-full", if thorough { 3 } else { 1 });
     let mut levels: Vec<Value> = vec![];
     if want("docs") {
         let nmax = families.iter().map(|f| f.nmax).max().unwrap_or(0);
@@ -397,11 +445,11 @@ fn main() {
                 let k1 = k + 1;
                 let patterns = (k1.pow(n as u32 + 2) - 1) / (k1 - 1);
                 let product = texts.saturating_mul(bsets).saturating_mul(patterns);
-                let full = product <= budget;
+                let full = product <= budget || n > bset_n;
                 levels.push(json!({
                     "family": f.name, "n": n, "texts": texts, "boundary_sets_per_text": bsets,
                     "patterns_per_document": patterns,
-                    "all_patterns_on": if full { "every boundary set" } else { "one record, one symbol per record, split at n/2; reduced pattern set on the other boundary sets" },
+                    "all_patterns_on": if full { "every boundary set".to_string() } else { format!("the first {canon_full} of [one record, one symbol per record, split at n/2]; reduced pattern set on the other boundary sets") },
                 }));
                 for t in all_texts(&f.symbols, n) {
                     items.push(Item::Doc { fam: fi, text: t, full });
@@ -423,8 +471,8 @@ fn main() {
             items.push(Item::BvRuns { first, lens });
         }
     }
-    // the seed only rotates the order inside equal-cost groups: nothing is sampled
-    let _ = seed;
+    // nothing is sampled and the enumeration order is fixed (small cases first): the seed is
+    // only recorded
 
     let job = "enum_scrunch";
     let fams = &families;
@@ -523,11 +571,16 @@ fn main() {
                 distinct.sort();
                 distinct.dedup();
                 let mut first = true;
-                let canonical = boundary_sets(n, false);
+                let all_canonical = boundary_sets(n, false);
+                let canonical: Vec<Vec<usize>> = if n <= bset_n {
+                    all_canonical.iter().take(canon_full).cloned().collect()
+                } else {
+                    all_canonical.clone()
+                };
                 // the canonical sets first: the reference document is asked the full pattern set
-                let mut bsets = canonical.clone();
+                let mut bsets = all_canonical.clone();
                 for b in boundary_sets(n, n <= bset_n) {
-                    if !canonical.contains(&b) {
+                    if !all_canonical.contains(&b) {
                         bsets.push(b);
                     }
                 }
@@ -609,7 +662,7 @@ fn main() {
             "all_boundary_sets_up_to_n": bset_n,
             "boundary_sets_above": ["one record", "one symbol per record", "split at n/2"],
             "long_structured_texts": n_longs,
-            "long_text_lengths": "63..66, 127..130 (thorough: +191..193, 255..257, 511..513); units of length <= 3 over 2 symbols, abc, cba, two large code points; linearised de Bruijn sequences",
+            "long_text_lengths": "63..66, 127..130 (thorough: +191..193, 255..257, 511..513); units of length <= 3 over 2 symbols, abc, cba, two large code points; linearised de Bruijn sequences; alphabets of 254..257 (thorough: +65534..65537) distinct symbols, each symbol once ascending / descending / ascending twice",
             "invalid_inputs": "5 texts (incl. empty) x 10 boundary vectors outside the API domain",
         },
         "bit_vectors": {
@@ -620,14 +673,14 @@ fn main() {
             "run_structure": if thorough {
                 "all sequences of 1..3 runs over the 12 lengths, both starting bits; each length repeated past 2*65537 bits"
             } else {
-                "all sequences of 1..3 runs over the 9 lengths <= 4097, all of 1..2 runs with a 65535..65537 run, (a, long, b) with a,b in {1,63,64}, both starting bits; each length <= 4097 repeated past 2*4097 bits"
+                "all sequences of 1..3 runs over {1,62..66}, all of 1..2 runs over the 9 lengths <= 4097, (a, m, b) with a,b in {1,63,64} and m in 4095..4097, (x), (a, x), (x, a) with x in 65535..65537, both starting bits; each length <= 4097 repeated past 2*4097 bits"
             },
-            "arguments": "every index 0..=len for access/rank/rank0/access_rank, every k 0..=count for select/select0, plus 14 out-of-range arguments up to usize::MAX",
+            "arguments": "every index 0..=len for access/rank/rank0/access_rank, every k 0..=count for select/select0, 8 arguments just past the range, and an ascending ladder of 21 arguments from 2^16 to usize::MAX (stopped at the first call slower than 2 ms, which is a finding)",
         },
     });
     report.rule = "Every case of the stated finite spaces is run on the real scrunch code; nothing is sampled. \
 Documents: a case is one (text, record-boundary set); each is built with CompressedDocument::construct and queried after unpack (the only way the crate offers: a document exists only as serialised bytes), a second unpack of a copy of the bytes at another address must answer the same, and a second construct must give identical bytes. \
-Deciding oracle = naive scan of the original Vec<u32> written in the harness: len, records, lookup(offset) for every offset < len, offset_of/retrieve for every record (byte for byte), search as a sorted set and count for every pattern; the empty pattern follows the crate's stated convention (every offset 0..len). Record indexes past the end must give Err; offsets >= len and everything else out of range must merely not panic. The crate's ReferenceDocument is run through the same oracle and reported under refdoc:* signatures (its search ignores boundaries by construction, so it is asked the patterns once per text). \
+Deciding oracle = naive scan of the original Vec<u32> written in the harness: len, records, lookup(offset) for every offset < len, offset_of/retrieve for every record (byte for byte), search as a sorted set and count for every pattern; the empty pattern follows the crate's stated convention (every offset 0..len). Record indexes past the end must give Err (asked just past the end and on an ascending ladder of 21 values from 2^16 to usize::MAX; a call slower than 2 ms twice in a row is reported as 'time grows with the argument' and ends the ladder, so the harness never sends the magnitudes at which such a call would not return); offsets >= len must merely not panic. Where texts x boundary sets x patterns of one length exceeds the level budget (see bound.documents.levels) every pattern is asked on the canonical boundary sets only and the other boundary sets get the reduced pattern set (all patterns of length <= 2, every substring of the text, every substring extended by one symbol on either side). The crate's ReferenceDocument is run through the same oracle and reported under refdoc:* signatures (its search ignores boundaries by construction, so it is asked the patterns once per text). \
 The API admits only boundaries that start at 0, strictly increase and stay < len, so empty records and the empty text cannot be built: that refusal is reported as doc:construct:refuses:*. \
 Bit vectors (semantics taken from ReferenceBitVector, the crate's test tables and the default methods; the trait doc for select only says 'Select the x'th bit from this set. An index.'): access(i)=bit i for i<len else None; rank(i)=#ones at positions < i (exclusive) for i<=len else None; rank0(i)=i-rank(i); select(k)=smallest p with rank(p)=k, i.e. select(0)=0 and select(k)=index of the k-th one (1-based k, 0-based index) + 1, None for k>#ones; select0 likewise over zeros; access_rank(i)=(access,rank) for i<len, at i=len None or (false,rank(len)) (the crate's implementations differ there and the trait is silent), None beyond. A panic is a violation everywhere. \
 distinct = hash of the input (text+boundaries, or the bit vector); non-trivial = documents with >= 2 distinct symbols or >= 2 records, vectors containing both a 0 and a 1; outcomes = distinct observed answers.".to_string();
@@ -641,6 +694,11 @@ distinct = hash of the input (text+boundaries, or the bit vector); non-trivial =
             json!("some findings did not reproduce on their second run and were dropped"),
         );
     }
+    report.notes.insert("seed".into(), json!(seed));
+    report.notes.insert(
+        "lookup_past_end".into(),
+        json!("CompressedDocument::lookup answers the last record for offset == len and Err beyond; ReferenceDocument answers the last record for every offset >= len; the property is silent there, so both are admitted"),
+    );
     let all = only.is_none();
     if !all {
         report.notes.insert("only".into(), json!(only));
@@ -664,6 +722,8 @@ distinct = hash of the input (text+boundaries, or the bit vector); non-trivial =
     }
     report.finish(&args, job);
 }
+
+static ONLY_IMPL: std::sync::OnceLock<String> = std::sync::OnceLock::new();
 
 fn account_doc(
     acc: &mut Acc,
@@ -721,6 +781,11 @@ fn bv_case(acc: &mut Acc, bits: Vec<bool>, reparse: bool) {
         acc.report.nontrivial.insert(h);
     }
     for name in IMPLS {
+        if let Some(only) = ONLY_IMPL.get() {
+            if only != name {
+                continue;
+            }
+        }
         let mut st = BvStats::default();
         let mut out = vec![];
         check_bv_named(
@@ -737,6 +802,7 @@ fn bv_case(acc: &mut Acc, bits: Vec<bool>, reparse: bool) {
         acc.report.transitions += st.calls;
         acc.report.count("bv_cases", 1);
         acc.report.count("bv_out_of_range_calls", st.out_of_range_calls);
+        acc.report.count("bv_far_argument_ladders_stopped_at_slow_call", st.far_ladders_stopped);
         if acc.report.evaluations % 49999 == 2 {
             let (first, lens) = to_runs(&oracle.bits);
             acc.report.sample(json!({
